@@ -1,5 +1,332 @@
-//! C20 — not implemented yet.
+//! C20 — glam outputs satisfy glam preconditions; assertions never change results.
+#![allow(deprecated, unused_braces, dead_code)]
+use proptest::prelude::*;
+use serde_json::json;
+use vcore::*;
+
+#[derive(Clone, Debug, Default)]
+pub struct CObs {
+    pub w: Vec<u64>,
+    pub k: Vec<u8>,
+    pub strs: Vec<String>,
+}
+pub struct ApiInfo {
+    pub id: u32,
+    pub ty: &'static str,
+    pub name: &'static str,
+    pub sig: &'static str,
+    pub width: u8,
+    pub present: bool,
+}
+pub type RunFn = fn(u32, &[u64]) -> Result<CObs, String>;
+pub type ChainOut = Result<(Vec<u64>, usize, usize, Option<String>, Vec<&'static str>), String>;
+pub type ChainFn = fn(&[u64]) -> ChainOut;
+pub type InvalidFn = fn(&[u64]) -> Vec<(&'static str, bool)>;
+
+macro_rules! variant {
+    ($m:ident, $krate:ident, $table:expr) => {
+        pub mod $m {
+            use ::$krate as glam;
+            pub mod tab {
+                use super::glam;
+                include!(concat!(env!("CARGO_MANIFEST_DIR"), "/../apisupport/api_support.rs"));
+                include!(concat!(env!("CARGO_MANIFEST_DIR"), $table));
+                pub fn run(id: u32, w: &[u64]) -> Result<crate::CObs, String> {
+                    let mut s = Src::new(w);
+                    let mut o = Obs::new();
+                    match vcore::catch(|| call(id, &mut s, &mut o)) {
+                        Ok(true) => {
+                            // sign/payload of an arithmetic NaN are unspecified in Rust: identify all NaNs
+                            let w = (0..o.w.len())
+                                .map(|i| {
+                                    if o.k[i] == K_F32 && f32::from_bits(o.w[i] as u32).is_nan() {
+                                        0x7fc0_0000
+                                    } else if o.k[i] == K_F64 && f64::from_bits(o.w[i]).is_nan() {
+                                        0x7ff8_0000_0000_0000
+                                    } else {
+                                        o.w[i]
+                                    }
+                                })
+                                .collect();
+                            Ok(crate::CObs { w, k: o.k, strs: o.strs })
+                        }
+                        Ok(false) => Err("absent".into()),
+                        Err(m) => Err(format!("panic: {m}")),
+                    }
+                }
+                pub fn api() -> Vec<crate::ApiInfo> {
+                    API.iter().map(|e| crate::ApiInfo { id: e.id, ty: e.ty, name: e.name, sig: e.sig, width: e.width, present: e.present }).collect()
+                }
+            }
+            pub mod ch {
+                use super::glam;
+                include!("chain.rs");
+            }
+        }
+    };
+}
+
+#[cfg(not(feature = "core"))]
+variant!(simd, glam_simd, "/../gen/api_table_sse2.rs");
+#[cfg(not(feature = "core"))]
+variant!(asserting, glam_assert, "/../gen/api_table_sse2.rs");
+#[cfg(not(feature = "core"))]
+variant!(scalar, glam_scalar, "/../gen/api_table_scalar.rs");
+#[cfg(not(feature = "core"))]
+variant!(scalar_asserting, glam_scalar_assert, "/../gen/api_table_scalar.rs");
+#[cfg(not(feature = "core"))]
+variant!(dbg, glam_dbgassert, "/../gen/api_table_sse2.rs");
+#[cfg(feature = "core")]
+variant!(core_plain, glam_core, "/../gen/api_table_coresimd.rs");
+#[cfg(feature = "core")]
+variant!(core_asserting, glam_core_assert, "/../gen/api_table_coresimd.rs");
+
+pub const STEP_WORDS: usize = 12;
+pub const MAX_STEPS: usize = 12;
+
+fn chain_strategy() -> BoxedStrategy<Vec<u64>> {
+    let step = (0u64..65536, proptest::collection::vec(any::<u64>(), STEP_WORDS - 1)).prop_map(|(s, a)| {
+        let mut v = vec![s];
+        v.extend(a);
+        v
+    });
+    proptest::collection::vec(step, 0..=MAX_STEPS)
+        .prop_map(|steps| {
+            let mut h = vec![steps.len() as u64];
+            for s in steps {
+                h.extend(s);
+            }
+            h.resize(1 + MAX_STEPS * STEP_WORDS, 0);
+            h
+        })
+        .boxed()
+}
+
+/// (i) no valid chain panics with assertions on, every pooled value passes its check;
+/// (iii) the chain's values are bit-identical with assertions on and off.
+fn chain_check(plain: ChainFn, asserting: ChainFn, asserts_active: bool, pair: &'static str) -> impl Fn(&[u64], &mut Tally) -> Result<(), Fail> + Sync {
+    move |w: &[u64], t: &mut Tally| {
+        t.eval(1);
+        let p = plain(w);
+        let a = asserting(w);
+        let (pobs, produced, fed, inv, trace) = match p {
+            Ok(x) => x,
+            Err(m) => return Err(Fail::new(format!("C20/{pair}/chain-panic-plain"), "chain", format!("the build WITHOUT assertions panicked on a valid chain: {m}"))),
+        };
+        t.class(&format!("chain-len-{}", trace.len()));
+        for op in &trace {
+            t.class(&format!("op:{op}"));
+        }
+        if fed >= 3 {
+            t.nontrivial(mix(hash_str(pair), fnv(w)));
+            if t.want_sample() {
+                t.sample(json!({"pair": pair, "chain": trace, "values_produced": produced, "consumer_steps_fed_by_glam_outputs": fed}));
+            }
+        }
+        if let Some(m) = inv {
+            return Err(Fail::new(format!("C20/{pair}/pool-invariant"), format!("{:?}", trace), format!("{m}; chain {:?}", trace)));
+        }
+        match a {
+            Err(m) => {
+                if asserts_active {
+                    Err(Fail::new(format!("C20/{pair}/chain-panic"), format!("{:?}", trace), format!("assertion fired on a chain of valid operations fed with glam's own outputs: {m}; chain {:?}", trace)))
+                } else {
+                    Err(Fail::new(format!("C20/{pair}/chain-panic-inactive"), format!("{:?}", trace), format!("panicked although assertions are compiled out in this profile: {m}")))
+                }
+            }
+            Ok((aobs, _, _, ainv, _)) => {
+                if let Some(m) = ainv {
+                    return Err(Fail::new(format!("C20/{pair}/pool-invariant"), format!("{:?}", trace), format!("{m}; chain {:?}", trace)));
+                }
+                if aobs != pobs {
+                    let i = (0..aobs.len().min(pobs.len())).find(|&i| aobs[i] != pobs[i]).unwrap_or(0);
+                    return Err(Fail::new(
+                        format!("C20/{pair}/value-changed"),
+                        format!("{:?}", trace),
+                        format!("enabling assertions changed a returned value: value #{i} is 0x{:x} with assertions and 0x{:x} without; chain {:?}", aobs.get(i).copied().unwrap_or(0), pobs.get(i).copied().unwrap_or(0), trace),
+                    ));
+                }
+                Ok(())
+            }
+        }
+    }
+}
+
+/// (ii) each documented violation panics with assertions on and does not without
+fn invalid_check(plain: InvalidFn, asserting: InvalidFn, asserts_active: bool, pair: &'static str) -> impl Fn(&[u64], &mut Tally) -> Result<(), Fail> + Sync {
+    move |w: &[u64], t: &mut Tally| {
+        let p = plain(w);
+        let a = asserting(w);
+        for ((name, pp), (_, ap)) in p.iter().zip(a.iter()) {
+            t.eval(1);
+            t.nontrivial(mix(hash_str(name), fnv(w)));
+            if *pp {
+                return Err(Fail::new(format!("C20/{pair}/invalid-panics-without-assert"), *name, format!("{name}: panicked in the build without assertions")));
+            }
+            if asserts_active && !*ap {
+                return Err(Fail::new(format!("C20/{pair}/invalid-accepted"), *name, format!("{name}: a documented precondition violation did NOT panic with assertions enabled")));
+            }
+            if !asserts_active && *ap {
+                return Err(Fail::new(format!("C20/{pair}/invalid-panics-inactive"), *name, format!("{name}: panicked although assertions are compiled out in this profile")));
+            }
+        }
+        if t.want_sample() {
+            t.sample(json!({"pair": pair, "violations_checked": p.iter().map(|x| x.0).collect::<Vec<_>>()}));
+        }
+        Ok(())
+    }
+}
+
+fn moderate() -> BoxedStrategy<u64> {
+    prop_oneof![
+        45 => (121u32..=133, 0u32..(1 << 23), any::<bool>()).prop_map(|(e, m, s)| (((s as u32) << 31) | (e << 23) | m) as u64),
+        20 => (-8i32..=8, 0u8..3).prop_map(|(k, h)| ((k as f32) + [0.0f32, 0.5, 0.25][h as usize]).to_bits() as u64),
+        10 => prop_oneof![Just(0u64), Just(0x8000_0000u64)],
+        15 => proptest::sample::select(vec![1.0f32, -1.0, 0.5, 2.0, 0.70710677, -0.70710677, 0.57735026, 3.1415927, 0.6, 0.8]).prop_map(|x| x.to_bits() as u64),
+        10 => vcore::lattice::lat_f32(),
+    ]
+    .boxed()
+}
+fn moderate64() -> BoxedStrategy<u64> {
+    prop_oneof![
+        45 => (1017u64..=1029, 0u64..(1 << 52), any::<bool>()).prop_map(|(e, m, s)| ((s as u64) << 63) | (e << 52) | m),
+        20 => (-8i32..=8, 0u8..3).prop_map(|(k, h)| ((k as f64) + [0.0f64, 0.5, 0.25][h as usize]).to_bits()),
+        10 => prop_oneof![Just(0u64), Just(0x8000_0000_0000_0000u64)],
+        15 => proptest::sample::select(vec![1.0f64, -1.0, 0.5, 2.0, 0.6, 0.8, core::f64::consts::FRAC_1_SQRT_2]).prop_map(|x| x.to_bits()),
+        10 => vcore::lattice::lat_f64(),
+    ]
+    .boxed()
+}
+
+const NW: usize = 48;
+
+/// (iii) over the whole API table: whenever the asserting build does not panic, every observation is bit-identical
+fn table_check(plain: RunFn, asserting: RunFn, api: &'static [ApiInfo], ty: &'static str, pair: &'static str) -> impl Fn(&[u64], &mut Tally) -> Result<(), Fail> + Sync {
+    move |w: &[u64], t: &mut Tally| {
+        for e in api.iter().filter(|e| e.present && e.ty == ty) {
+            t.eval(1);
+            let a = asserting(e.id, w);
+            let p = plain(e.id, w);
+            let mk = |m: String| Fail::new(format!("C20/{pair}/{}/{}", e.ty, e.name), e.sig, format!("{m}; call #{} {} :: {}; words {:?}", e.id, e.ty, e.sig, hexwords(&w[..16])));
+            match (a, p) {
+                (Ok(a), Ok(p)) => {
+                    t.nontrivial(mix(hash_str(pair), mix(e.id as u64, fnv(w))));
+                    if a.w != p.w || a.k != p.k || a.strs != p.strs {
+                        return Err(mk(format!("value differs with assertions enabled: {:?} vs {:?}", hexwords(&a.w), hexwords(&p.w))));
+                    }
+                    t.class("both-returned");
+                }
+                (Err(_), Ok(_)) => t.class("assertion-fired"),
+                (Err(_), Err(_)) => t.class("both-panicked"),
+                (Ok(_), Err(m)) => return Err(mk(format!("only the build without assertions panicked: {m}"))),
+            }
+        }
+        Ok(())
+    }
+}
+
+fn leak<T>(v: Vec<T>) -> &'static [T] {
+    Box::leak(v.into_boxed_slice())
+}
+
+struct Pair {
+    name: &'static str,
+    plain_run: RunFn,
+    assert_run: RunFn,
+    api: &'static [ApiInfo],
+    chains: Vec<(&'static str, ChainFn, ChainFn, InvalidFn, InvalidFn)>,
+    active: bool,
+}
+
 fn main() {
-    eprintln!("c20: not implemented");
-    std::process::exit(2);
+    let args = Args::parse();
+    let args: &'static Args = Box::leak(Box::new(args));
+    let mut pairs: Vec<Pair> = vec![];
+    #[cfg(not(feature = "core"))]
+    {
+        pairs.push(Pair {
+            name: "simd+glam-assert",
+            plain_run: simd::tab::run,
+            assert_run: asserting::tab::run,
+            api: leak(simd::tab::api()),
+            chains: vec![
+                ("f32", simd::ch::f32fam::run_chain, asserting::ch::f32fam::run_chain, simd::ch::f32fam::invalid_cases, asserting::ch::f32fam::invalid_cases),
+                ("f64", simd::ch::f64fam::run_chain, asserting::ch::f64fam::run_chain, simd::ch::f64fam::invalid_cases, asserting::ch::f64fam::invalid_cases),
+            ],
+            active: true,
+        });
+        pairs.push(Pair {
+            name: "scalar+glam-assert",
+            plain_run: scalar::tab::run,
+            assert_run: scalar_asserting::tab::run,
+            api: leak(scalar::tab::api()),
+            chains: vec![
+                ("f32", scalar::ch::f32fam::run_chain, scalar_asserting::ch::f32fam::run_chain, scalar::ch::f32fam::invalid_cases, scalar_asserting::ch::f32fam::invalid_cases),
+                ("f64", scalar::ch::f64fam::run_chain, scalar_asserting::ch::f64fam::run_chain, scalar::ch::f64fam::invalid_cases, scalar_asserting::ch::f64fam::invalid_cases),
+            ],
+            active: true,
+        });
+        // debug-glam-assert: asserting only when debug assertions are compiled in (the `chk` profile)
+        pairs.push(Pair {
+            name: "simd+debug-glam-assert",
+            plain_run: simd::tab::run,
+            assert_run: dbg::tab::run,
+            api: leak(simd::tab::api()),
+            chains: vec![("f32", simd::ch::f32fam::run_chain, dbg::ch::f32fam::run_chain, simd::ch::f32fam::invalid_cases, dbg::ch::f32fam::invalid_cases)],
+            active: cfg!(debug_assertions),
+        });
+    }
+    #[cfg(feature = "core")]
+    pairs.push(Pair {
+        name: "core+glam-assert",
+        plain_run: core_plain::tab::run,
+        assert_run: core_asserting::tab::run,
+        api: leak(core_plain::tab::api()),
+        chains: vec![("f32", core_plain::ch::f32fam::run_chain, core_asserting::ch::f32fam::run_chain, core_plain::ch::f32fam::invalid_cases, core_asserting::ch::f32fam::invalid_cases)],
+        active: true,
+    });
+    let mut subs: Vec<SubCheck> = vec![];
+    for p in pairs {
+        let (name, active) = (p.name, p.active);
+        for (fam, plain, asserting, ip, ia) in p.chains {
+            subs.push(SubCheck::new(
+                format!("chains/{fam}/{name}"),
+                8,
+                move |env: &mut Env| {
+                    let n = env.cases(60_000, 30);
+                    env.prop("chains", n, chain_strategy(), &chain_check(plain, asserting, active, name));
+                },
+                chain_check(plain, asserting, active, name),
+            ));
+            subs.push(SubCheck::new(
+                format!("invalid/{fam}/{name}"),
+                1,
+                move |env: &mut Env| {
+                    let n = env.cases(2_000, 10);
+                    env.prop("invalid", n, proptest::collection::vec(any::<u64>(), 24), &invalid_check(ip, ia, active, name));
+                },
+                invalid_check(ip, ia, active, name),
+            ));
+        }
+        if name != "simd+debug-glam-assert" || active {
+            let mut types: Vec<&'static str> = p.api.iter().filter(|e| e.present).map(|e| e.ty).collect();
+            types.sort();
+            types.dedup();
+            let (pr, ar, api) = (p.plain_run, p.assert_run, p.api);
+            for ty in types {
+                let w64 = api.iter().find(|e| e.ty == ty && e.present).map(|e| e.width == 64).unwrap_or(false);
+                subs.push(SubCheck::new(
+                    format!("table/{}/{name}", if ty.is_empty() { "free" } else { ty }),
+                    1,
+                    move |env: &mut Env| {
+                        let n = env.cases(1500, 30);
+                        let st = proptest::collection::vec(if w64 { moderate64() } else { moderate() }, NW);
+                        env.prop("table", n, st, &table_check(pr, ar, api, ty, name));
+                    },
+                    table_check(pr, ar, api, ty, name),
+                ));
+            }
+        }
+    }
+    std::process::exit(main_with("C20", "", args, subs));
 }
